@@ -421,7 +421,97 @@ func runC20(r *Run, verifDir string) {
 		})
 	}
 
-	// published plans are immutable: nothing is written through a pointer obtained from a plan cache
+	// published plans are immutable: nothing is written through a pointer obtained from a plan cache — directly, or
+	// through a function of the package that hands out such a pointer (one it loaded from, or has just stored in, a cache)
+	retCached := map[*ssa.Function]int{} // 0 unknown, 1 computing, 2 no, 3 yes
+	var fromCacheVal func(v ssa.Value, d int) bool
+	var returnsCached func(f *ssa.Function) bool
+	returnsCached = func(f *ssa.Function) bool {
+		if f == nil || f.Blocks == nil || idOf(f).pkg != ttlvPath {
+			return false
+		}
+		switch retCached[f] {
+		case 1, 2:
+			return false
+		case 3:
+			return true
+		}
+		retCached[f] = 1
+		// pointers this function publishes itself
+		published := map[ssa.Value]bool{}
+		allInstrs(f, func(in ssa.Instruction) {
+			c, ok := in.(*ssa.Call)
+			if !ok {
+				return
+			}
+			id := callID(&c.Call)
+			if id.pkg == "sync" && id.recv == "Map" && (id.name == "Store" || id.name == "LoadOrStore" || id.name == "Swap") && len(c.Call.Args) >= 3 {
+				if g := globalRoot(c.Call.Args[0], 0); g != nil {
+					if mi, ok := c.Call.Args[2].(*ssa.MakeInterface); ok {
+						if _, isPtr := mi.X.Type().Underlying().(*types.Pointer); isPtr {
+							published[mi.X] = true
+						}
+					}
+				}
+			}
+		})
+		res := false
+		allInstrs(f, func(in ssa.Instruction) {
+			ret, ok := in.(*ssa.Return)
+			if !ok {
+				return
+			}
+			for _, v := range ret.Results {
+				if _, isPtr := v.Type().Underlying().(*types.Pointer); !isPtr {
+					continue
+				}
+				if published[v] || fromCacheVal(v, 0) {
+					res = true
+				}
+				if ph, ok := v.(*ssa.Phi); ok {
+					for _, e := range ph.Edges {
+						if published[e] {
+							res = true
+						}
+					}
+				}
+			}
+		})
+		if res {
+			retCached[f] = 3
+		} else {
+			retCached[f] = 2
+		}
+		return res
+	}
+	fromCacheVal = func(v ssa.Value, d int) bool {
+		if d > 6 {
+			return false
+		}
+		switch x := v.(type) {
+		case *ssa.TypeAssert:
+			return fromCacheVal(x.X, d+1)
+		case *ssa.Extract:
+			return fromCacheVal(x.Tuple, d+1)
+		case *ssa.Phi:
+			for _, e := range x.Edges {
+				if fromCacheVal(e, d+1) {
+					return true
+				}
+			}
+		case *ssa.Call:
+			id := callID(&x.Call)
+			if id.pkg == "sync" && id.recv == "Map" && (id.name == "Load" || id.name == "LoadOrStore" || id.name == "Swap" || id.name == "LoadAndDelete") {
+				if g := globalRoot(x.Call.Args[0], 0); g != nil {
+					return true
+				}
+			}
+			if sc := x.Call.StaticCallee(); sc != nil && returnsCached(sc) {
+				return true
+			}
+		}
+		return false
+	}
 	for _, fn := range p.OwnFuncs() {
 		if idOf(fn).pkg != ttlvPath {
 			continue
@@ -441,32 +531,7 @@ func runC20(r *Run, verifDir string) {
 			default:
 				return
 			}
-			fromCache := false
-			var back func(v ssa.Value, d int)
-			back = func(v ssa.Value, d int) {
-				if d > 6 || fromCache {
-					return
-				}
-				switch x := v.(type) {
-				case *ssa.TypeAssert:
-					back(x.X, d+1)
-				case *ssa.Extract:
-					back(x.Tuple, d+1)
-				case *ssa.Phi:
-					for _, e := range x.Edges {
-						back(e, d+1)
-					}
-				case *ssa.Call:
-					id := callID(&x.Call)
-					if id.pkg == "sync" && id.recv == "Map" && (id.name == "Load" || id.name == "LoadOrStore" || id.name == "Swap" || id.name == "LoadAndDelete") {
-						if g := globalRoot(x.Call.Args[0], 0); g != nil {
-							fromCache = true
-						}
-					}
-				}
-			}
-			back(base, 0)
-			if fromCache {
+			if fromCacheVal(base, 0) {
 				ord++
 				r.Bad("C20.E6", fmt.Sprintf("%s/write-to-published#%d", fnKey(fn), ord), st.Pos(), "%s writes through a pointer obtained from a plan cache: the entry is visible to every goroutine as soon as it is in the cache, so another goroutine can use the plan before (or while) it is filled in — a nil function, a truncated plan, and a data race", fnKey(fn))
 			}
